@@ -1,5 +1,6 @@
 mod chain;
 mod classify;
+mod life;
 mod replay;
 mod universe;
 mod vals;
@@ -23,6 +24,17 @@ fn main() {
             let stdin = std::io::stdin();
             let mut lock = stdin.lock();
             replay::run_replay(&mut lock, out, &opts)
+        }
+        Some("life") => {
+            let flag = |name: &str| args.iter().position(|a| a == name).and_then(|i| args.get(i + 1)).cloned();
+            life::run_life(
+                args.get(2).expect("behaviour file"),
+                args.get(3).expect("result path"),
+                flag("--skip").map(|v| v.parse().unwrap()).unwrap_or(0),
+                &flag("--progress").unwrap_or_else(|| "/dev/null".to_string()),
+                flag("--max-inst").map(|v| v.parse().unwrap()).unwrap_or(3),
+                flag("--max-vals").map(|v| v.parse().unwrap()).unwrap_or(6),
+            )
         }
         _ => {
             eprintln!("usage: vh replay <result.json> [--raw] < behaviours");
